@@ -1,0 +1,8 @@
+//go:build !verif
+
+package bandersnatch
+
+// Verification hooks are compiled out: verifOn is a false constant, so guarded calls vanish.
+const verifOn = false
+
+func verifDecision(n, nbTasks, c, nbSplits, nbPoints, smallValues int, splitFirstChunk bool) {}
